@@ -108,3 +108,12 @@
 #[derive(Logos)] #[logos(skip r"^#![a-z/ ]*\n")] enum LeadingCaretSkip { #[regex("[a-z]+")] W }
 #[derive(Logos)] enum LeadingStartText { #[regex(r"\Afoo")] A, #[token("b")] B }
 #[derive(Logos)] enum GroupedCaret { #[regex("(^foo)")] A, #[token("b")] B }
+
+// unsupported regex features: a backreference must not be read as an octal escape
+#[derive(Logos)] enum BackRef { #[regex(r"([a-z])\1")] A }
+#[derive(Logos)] #[logos(utf8 = false)] enum BackRefBytes { #[regex(b"(x|y)[a-z]*\\1")] A }
+#[derive(Logos)] #[logos(skip r"(#+)[^#]+\1")] enum BackRefSkip { #[token("a")] A }
+#[derive(Logos)] #[logos(subpattern q = r"(a)\1")] enum BackRefSub { #[regex("(?&q)b")] A }
+#[derive(Logos)] enum BackRefSeven { #[regex(r"(a)(b)(c)(d)(e)(f)(g)\7")] A }
+#[derive(Logos)] enum LookAhead { #[regex("a(?=b)")] A }
+#[derive(Logos)] enum NamedBackRef { #[regex(r"(?P<n>a)\k<n>")] A }
